@@ -118,8 +118,10 @@ func appendMap(a, b map[apiMethod]struct{}) map[apiMethod]struct{} {
 func (api *API) validate(f apiMethod) error {
 	state := api.cluster.State()
 	if _, ok := validAPIMethods[state][f]; ok {
+		verifPoint("api.validate.ok", uint64(f), 0)
 		return nil
 	}
+	verifPoint("api.validate.refused", uint64(f), 0)
 	return newAPIMethodNotAllowedError(errors.Errorf("api method %s not allowed in state %s", f, state))
 }
 
